@@ -789,13 +789,13 @@ pub fn fault_replacements(wire: Proto, a: &Ann, total: usize) -> Vec<Vec<u8>> {
     let mut out = Vec::new();
     match a.kind {
         PosKind::BinLen | PosKind::Count => {
-            // "huge" values: lengths get 2^31-1; element counts get 2^22 and 2^24, which are just as
+            // "huge" values: lengths get 2^31-1; element counts get 2^20 and 2^22, which are just as
             // far out of proportion but do not make a preallocating hash table spend seconds
             // initialising gigabytes (that cost belongs to a recorded finding, not to every run)
             let vals: [i64; 10] = if a.kind == PosKind::BinLen {
                 [-1, 0, 1, rem - 1, rem, rem + 1, 0x7fff_ffff, 0x7fff_fff0, 0x0100_0000, -0x8000_0000]
             } else {
-                [-1, 0, 1, rem - 1, rem, rem + 1, 0x0040_0000, 0x0100_0000, 0x0001_0000, -0x8000_0000]
+                [-1, 0, 1, rem - 1, rem, rem + 1, 0x0040_0000, 0x0010_0000, 0x0001_0000, -0x8000_0000]
             };
             match wire {
                 Proto::Compact => {
